@@ -371,6 +371,8 @@ def run(prog, rep):
     # `recover` would turn malformed text into a partial document instead of a ParserException
     xml_parser_options(prog, rep, "LIB-1", ("huge_tree", "recover"))
 
+    from .common_tables import stateless_tools_rule
+    stateless_tools_rule(prog, rep, "STATE-2", ("XMLReader", "DictReader", "ODMLReader"))
     first_row_rule(prog, rep, "ROW-1")
     present_key_rule(prog, rep, "KEY-2")
     keep_children_rule(prog, rep, "KEEP-1")
